@@ -291,6 +291,35 @@ def run(ctx: core.Ctx):
     if nf < len(cases) - ctx.extra.get("cases_dropped_overflow", 0):
         raise MachineryError(f"{nf} of {len(cases)} recorded texts validated")
     ctx.extra["recorded_texts_validated_by_tlc"] = nf
+    # formulas written with runs of blanks and tabs between their tokens (the abstract engines hold single-spaced tokens: this clause
+    # is checked on the real objects only): the text is a fixed point of export . import
+    nsp = 0
+    for k in range(400 if ctx.quick else 3000):
+        dec = 3
+        E_ = fll.rengine(rng, dec, 5000 + k)
+        with fl.settings.context(decimals=dec):
+            real = fll.build(fl, E_, dec)
+            fts = [t for v in real.input_variables + real.output_variables for t in v.terms if type(t).__name__ == "Function" and " " in t.formula]
+            if not fts:
+                continue
+            for t in fts:
+                parts = t.formula.split(" ")
+                t.formula = parts[0] + "".join(rng.choice(["  ", " \t ", "   ", " "]) + q for q in parts[1:])
+                t.load()
+            nsp += 1
+            ctx.count()
+            text = fl.FllExporter().to_string(real)
+            try:
+                text2 = fl.FllExporter().to_string(fl.FllImporter().from_string(text))
+            except Exception as ex:
+                ctx.violation(f"FllImporter/rejects-own-export/{type(ex).__name__}/spaced-formula", {"engine": E_, "text": text}, "an engine", f"{type(ex).__name__}: {ex}")
+                continue
+            if text2 != text:
+                i, x, y = first_diff(text2.split("\n"), text.split("\n"))
+                ctx.violation("Fll/export-import-export/text-changes/spaced-formula", {"engine": E_, "text": text}, y, x, note=f"line {i}: '{y}' became '{x}'")
+        if nsp >= (25 if ctx.quick else 200):
+            break
+    ctx.extra["spaced_formula_engines"] = nsp
     ctx.extra["example_engines"] = len([c for c in cases if not c["origin"].startswith(("seeded", "perturbed"))])
     ctx.exhaustive = not ctx.quick      # the quick tier replays a stride of the enumerated cases (TLC checks all of them on the model)
     ctx.rule = (f"{n1} component-wise enumerated engines (every term class x parameter pattern x height class, activations, defuzzifiers, operators, flags, weights) "
